@@ -431,6 +431,38 @@ struct ratio_type {
         {                                                                                                              \
             return rn<A>::n != 0 && rn<B>::n != 0;                                                                     \
         }                                                                                                              \
+    };                                                                                                                 \
+    struct OP##_Ty {                                                                                                   \
+        static constexpr char const* name = #OP;                                                                       \
+        static constexpr char const* form = "@<R1,R2> is ratio<num,den>";                                              \
+        template <typename A, typename B>                                                                              \
+        static constexpr bool ok = naive_fits<A, B>() && (EXTRA_OK);                                                   \
+        template <typename A, typename B>                                                                              \
+        static constexpr bool gap = false;                                                                             \
+        template <typename R>                                                                                          \
+        static constexpr char const* cls()                                                                             \
+        {                                                                                                              \
+            return rat_cls<R>::value();                                                                                \
+        }                                                                                                              \
+        template <typename A, typename B>                                                                              \
+        static constexpr long long e()                                                                                 \
+        {                                                                                                              \
+            using X = etl::OP<E<A>, E<B>>;                                                                             \
+            return std::is_same_v<X, etl::ratio<X::num, X::den>>;                                                      \
+        }                                                                                                              \
+        template <typename A, typename B>                                                                              \
+        static constexpr long long s()                                                                                 \
+        {                                                                                                              \
+            using X = std::OP<S<A>, S<B>>;                                                                             \
+            return std::is_same_v<X, std::ratio<X::num, X::den>>;                                                      \
+        }                                                                                                              \
+        template <typename A, typename B>                                                                              \
+        static constexpr ShowFn show = nullptr;                                                                        \
+        template <typename A, typename B>                                                                              \
+        static constexpr bool nontrivial(long long)                                                                    \
+        {                                                                                                              \
+            return rn<A>::n != 0 && rn<B>::n != 0;                                                                     \
+        }                                                                                                              \
     };
 
 #define C15_RATIO_CMP(OP)                                                                                              \
@@ -919,7 +951,8 @@ int main(int argc, char** argv)
         }
     });
     m.job("ratio-arithmetic", {"quick", "thorough"}, [](mc::Reporter& r) {
-        run_columns<op_cases, ratio_add_R, ratio_subtract_R, ratio_multiply_R, ratio_divide_R>(r);
+        run_columns<op_cases, ratio_add_R, ratio_add_Ty, ratio_subtract_R, ratio_subtract_Ty, ratio_multiply_R, ratio_multiply_Ty,
+            ratio_divide_R, ratio_divide_Ty>(r);
     });
     m.job("ratio-compare", {"quick", "thorough"}, [](mc::Reporter& r) {
         run_columns<op_cases, ratio_equal_S, ratio_equal_V, ratio_not_equal_S, ratio_not_equal_V, ratio_less_S, ratio_less_V,
